@@ -2,6 +2,7 @@
 import difflib
 import json
 import os
+import re
 
 import gsort_lib
 import vlib
@@ -46,6 +47,32 @@ def view(j):
             "definition": d["source"], "has": d.get("counts"),
             "generations": [{"mode": o["mode"], "state": o["state"], "sha256": o["sha"][:16], "err": o.get("err", "")}
                             for o in j["obs"]]}
+
+
+def map_range_tie(ctx):
+    """(T) every `range` over a map in the generator packages, regenerated from the current tree,
+    must be one of those the model accounts for (coq/ties/Tie_C14.v)"""
+    return ctx.translator_tie("xlate_maprange", ["-repo", ctx.copy_repo()], "MapRangeGen", "Tie_C14")
+
+
+ROW = re.compile(r'\("([^"]*)"(?:%string)?, "([^"]*)"(?:%string)?, "([^"]*)"(?:%string)?, "([^"]*)"(?:%string)?, "([^"]*)"(?:%string)?\)')
+
+
+def tie_generators(ctx, tie_ok):
+    """generators whose packages gained or lost a map range w.r.t. the tie's expected list"""
+    if tie_ok:
+        return set()
+    try:
+        gen = set(ROW.findall(open(os.path.join(ctx.gen, "MapRangeGen.v")).read()))
+        exp = set(ROW.findall(vlib.strip_comments(open(os.path.join(vlib.COQ, "ties", "Tie_C14.v")).read())))
+    except OSError:
+        return {"gsort", "genum", "gerror"}
+    out = set()
+    for row in gen ^ exp:
+        pkg = row[0]
+        out |= {"gsort/gen": {"gsort"}, "genum/gen": {"genum"}, "gerror/gen": {"gerror"}}.get(pkg, {"gsort", "genum", "gerror"})
+    ctx.cov["map_ranges_changed"] = sorted(" / ".join(r[:4]) for r in gen ^ exp)
+    return out or {"gsort", "genum", "gerror"}
 
 
 def run_farm(ctx, binp, clis, args, tag):
@@ -94,6 +121,22 @@ def minimise(ctx, binp, clis, j):
     return out
 
 
+def locate_order(j):
+    """first order observation that is not ascending (python side, for the replay text only)"""
+    for names in j.get("name_orders") or []:
+        for x, y in zip(names, names[1:]):
+            if not x.encode() < y.encode():
+                return {"list": names, "not_ascending_by_name": [x, y]}
+    vals = {v["name"]: (v["value"], v["name"].encode()) for e in (j["def"].get("enums") or []) for v in e["values"]}
+    for names in j.get("value_orders") or []:
+        for x, y in zip(names, names[1:]):
+            if x in vals and y in vals and not vals[x] < vals[y]:
+                return {"list": names, "not_ascending_by_value_then_name": [x, y]}
+    if j["def"]["gen"] == "gsort":
+        return {"blocks_in_file_order": j.get("blocks"), "expected": "ascending by (element type, sorter name as written incl. *)"}
+    return None
+
+
 def report_bad(ctx, j, code):
     rep = {"case": view(j), "replay_cmd": "./check C14 --replay <this file>", "def": j["def"]}
     if code == 1:
@@ -104,15 +147,17 @@ def report_bad(ctx, j, code):
                 outs[0].splitlines(True), outs[1].splitlines(True), "output A", "output B"))[:200])
         feats = {"generator": j["def"]["gen"], "kind": "bytes-differ", "axis": classify(j["obs"])}
     else:
-        rep["verdict"] = ("all generations byte-identical (the property's observable holds), but an order in the output is not the "
-                          "one the model's comparators give: gsort blocks by (TypeName, sortTypeName); genum value lists by Value.Less, "
-                          "trait methods by name; gerror fields by name — the model of the sorts no longer corresponds to the code")
-        rep["unchecked"] = "correspondence GenDetModel (desc_lt / value_lt / trait_lt / efield_lt) vs generated output order"
+        rep["verdict"] = ("the order of an output list contradicts the comparator the generator sorts it by (as modelled): "
+                          "gsort blocks by (TypeName, sortTypeName); genum value lists by Value.Less, trait methods by name; "
+                          "gerror fields by name. All %d generations of this definition were byte-identical, and so were those of "
+                          "the widened search when none is listed before this replay — the order is no longer the sorted one "
+                          "(a sort was removed or its key changed), which is what keeps map order out of the output" % len(j["obs"]))
+        rep["offending_order"] = locate_order(j)
         rep["blocks_observed"] = j.get("blocks")
         rep["value_orders_observed"] = j.get("value_orders")
         rep["name_orders_observed"] = j.get("name_orders")
         feats = {"generator": j["def"]["gen"], "kind": "output-order-vs-model"}
-    ctx.report(rep, feats, failing_input=(code == 1))
+    ctx.report(rep, feats, failing_input=True)
 
 
 def run(ctx):
@@ -152,11 +197,65 @@ def run(ctx):
         ctx.report({"unchecked": "in-kernel evaluation of the judgement", "detail": err},
                    {"kind": "coq_eval"}, failing_input=False)
         return
-    for k, (i, code) in enumerate(bad):
+    # the order observations must be complete: a harness that no longer recognises the lists in the
+    # generated text would otherwise pass vacuously
+    blind = [j for j in jsons if j.get("name_order_sizes") is not None
+             and [len(x or []) for x in (j.get("name_orders") or [])] != j["name_order_sizes"]]
+    if blind:
+        j = blind[0]
+        ctx.report({"unchecked": "extraction of the order-bearing lists from the generated file (harness/cmd/c14 orderObs) — "
+                                 "the output's layout changed; the order tie is not being exercised",
+                    "generator": j["def"]["gen"], "expected_list_lengths": j["name_order_sizes"],
+                    "extracted": j.get("name_orders"), "output_head": (j.get("outputs") or [""])[0][:1500]},
+                   {"kind": "observation-extraction", "generator": j["def"]["gen"]}, failing_input=False)
+    tie_ok, tie_detail = map_range_tie(ctx)
+    ctx.log("map-range tie:", "OK" if tie_ok else "BROKEN", "-", tie_detail.splitlines()[0])
+    # Widened search.  When the only signal so far is a broken tie or an order that departs from the
+    # model's comparator (no two generations differed yet), look harder for a definition on which
+    # two generations differ: more definitions of the affected generators (those named by the failing
+    # cases and those whose packages gained or lost a map range), 8 generations in one process + 8 in
+    # separate processes each.
+    if (bad and not any(c == 1 for _, c in bad)) or not tie_ok:
+        affected = sorted({jsons[i]["def"]["gen"] for i, _ in bad} | tie_generators(ctx, tie_ok))
+        ctx.log("widened search for two differing generations (%s)" % ",".join(affected))
+        per = 6 if quick else 24
+        if len(affected) == 1:
+            per *= 2
+        wt, wj, werr = run_farm(ctx, binp, clis, ["-seed", ctx.seed + 7919, "-n", per, "-reps", 8,
+                                                  "-only", ",".join(affected)], "wide")
+        if not werr:
+            wbad, _, werr = ctx.judge_cases(HEADER, "gd_case", "gd_judge", wt, shard=40, tag="wide")
+        if not werr:
+            for j in wj:
+                j["widened"] = True
+            bad += [(len(jsons) + i, c) for i, c in wbad]
+            jsons += wj
+            ctx.cov["widened_search"] = {"definitions": len(wj), "generations": sum(len(j["obs"]) for j in wj),
+                                         "differing_generations_found": sum(1 for _, c in wbad if c == 1)}
+    # failing inputs first: definitions on which two generations differed (code 1), then
+    # definitions whose output order contradicts the model's comparator (code 2; one per generator)
+    ones = [(i, c) for i, c in bad if c == 1]
+    twos, seen = [], set()
+    for i, c in bad:
+        if c == 2 and jsons[i]["def"]["gen"] not in seen:
+            seen.add(jsons[i]["def"]["gen"])
+            twos.append((i, c))
+    for k, (i, code) in enumerate(ones + twos):
         j = jsons[i]
         if code == 1 and k < 2:
             j = minimise(ctx, binp, clis, j)
         report_bad(ctx, j, code)
+    if len(bad) > len(ones) + len(twos):
+        ctx.violations += ["(like a replay above)"] * (len(bad) - len(ones) - len(twos))
+    if not tie_ok:
+        ctx.cov["translator_tie"] = {"status": "BROKEN", "detail": tie_detail[-800:]}
+        if not bad:
+            gen = os.path.join(ctx.gen, "MapRangeGen.v")
+            ctx.report({"unchecked": "tie Tie_C14 (the map ranges of the generator packages = the ones GenDetModel accounts for)",
+                        "detail": tie_detail[-2500:],
+                        "map_ranges_found": open(gen).read()[-3000:] if os.path.isfile(gen) else None,
+                        "widened_search": ctx.cov.get("widened_search")},
+                       {"kind": "translator_tie"}, failing_input=False)
     gens = sum(len(j["obs"]) for j in jsons)
     failed = [j for j in jsons if any(o.get("err") for o in j["obs"])]
     produced = [j for j in jsons if all(o["sha"] and not o.get("err") for o in j["obs"])]
